@@ -1,13 +1,955 @@
-//! C07 — (not built yet)
-#![allow(unused_imports, unused_variables, dead_code)]
+//! C07 — the streaming text reader is independent of read chunking and buffer size
+//! (plus the text-reader clauses of C09 `gen_skip` and C20 `gen_fault`).
+//!
+//! ops (cap = 0 means `TokenReader::from_slice`, the schedule is then ignored; a cap with the
+//! suffix `r` uses a buffer recycled from a previous reader via `into_parts`/`builder().buffer`):
+//!   tlex    <hex>                         -> `<toks> <outcome> <pos>`
+//!   tstream <cap> <sched> <hex>           -> `<toks> <outcome> <pos> <delivered>`      stops at the first error
+//!   tretry  <cap> <sched> <hex>           -> same, but keeps calling `next` after an I/O error (`!io` in the token list)
+//!   tskip   <cap> <sched> <hex> <k>       -> `<skip-outcome> <next> <pos> <delivered>` skip_container after the k-th Open (k>=1)
+//!   tskipu  <cap> <sched> <hex> <k>       -> same with skip_unquoted_value after the k-th Unquoted token
+//!   tbytes  <cap> <sched> <hex> <k> <n>   -> `<bytes|outcome> <next> <pos> <delivered>` read_bytes(n) after k tokens
+//!   tread   <cap> <sched> <hex>           -> like tstream but through `read()` (clean end becomes err:eof)
+//!   lws <u64> | cchunk <u64> <byte> | czb <u64>   the SWAR hooks
+//! tokens: show.rs `text_lex_tok`, joined by ',', "-" when there are none.
+//! outcomes: end | err:eof | err:full | err:io.
+#![allow(dead_code)]
 use crate::common::*;
+use crate::docgen::{self, DocCfg, LayoutCfg};
+use crate::sched::{self, SchedReader, Step};
+use crate::show::text_lex_tok;
+use jomini::text::{ReaderError, ReaderErrorKind, Token, TokenReader};
+use jomini::verif_hooks as hooks;
+use std::io::Read;
 
-pub fn gen(g: &mut Gen) {}
+fn err_name(e: &ReaderError) -> &'static str {
+    match e.kind() {
+        ReaderErrorKind::Read(_) => "err:io",
+        ReaderErrorKind::BufferFull => "err:full",
+        ReaderErrorKind::Eof => "err:eof",
+    }
+}
 
-pub fn exec(w: &[&str], obs: &mut Obs) -> Option<String> {
+fn join(toks: &[String]) -> String {
+    if toks.is_empty() { "-".to_string() } else { toks.join(",") }
+}
+
+#[derive(Clone, Debug, PartialEq)]
+pub struct Run {
+    pub toks: Vec<String>,
+    pub out: String,
+    pub pos: usize,
+    pub delivered: usize,
+    pub faults: usize,
+    pub calls: usize,
+    /// bytes delivered before each failing read call
+    pub fault_pos: Vec<usize>,
+}
+
+// ------------------------------------------------------------------------------------------
+// drivers, generic over the Read
+
+fn lex_all<R: Read>(rd: &mut TokenReader<R>, limit: usize, retry: bool, via_read: bool) -> (Vec<String>, String) {
+    let mut toks = vec![];
+    let mut errors = 0;
+    loop {
+        if toks.len() > limit {
+            return (toks, "hang".to_string());
+        }
+        let r = if via_read { rd.read().map(Some) } else { rd.next() };
+        match r {
+            Ok(Some(t)) => toks.push(text_lex_tok(&t)),
+            Ok(None) => return (toks, "end".to_string()),
+            Err(e) => {
+                let n = err_name(&e);
+                if retry && n == "err:io" && errors < 8 {
+                    errors += 1;
+                    toks.push("!io".to_string());
+                    continue;
+                }
+                return (toks, n.to_string());
+            }
+        }
+    }
+}
+
+#[derive(Clone, Copy, PartialEq)]
+enum SkipKind { Container, Unquoted }
+
+/// read until the k-th Open / Unquoted, skip, then read one token.
+fn skip_at<R: Read>(rd: &mut TokenReader<R>, kind: SkipKind, k: usize, limit: usize) -> String {
+    let mut seen = 0;
+    let mut n = 0;
+    loop {
+        n += 1;
+        if n > limit { return "hang -".to_string(); }
+        match rd.next() {
+            Ok(Some(t)) => {
+                let hit = match (kind, &t) {
+                    (SkipKind::Container, Token::Open) => true,
+                    (SkipKind::Unquoted, Token::Unquoted(_)) => true,
+                    _ => false,
+                };
+                if hit {
+                    seen += 1;
+                    if seen == k { break; }
+                }
+            }
+            Ok(None) => return "nok end".to_string(),
+            Err(e) => return format!("nok {}", err_name(&e)),
+        }
+    }
+    let r = match kind { SkipKind::Container => rd.skip_container(), SkipKind::Unquoted => rd.skip_unquoted_value() };
+    match r {
+        Ok(()) => {
+            let nx = match rd.next() {
+                Ok(Some(t)) => text_lex_tok(&t),
+                Ok(None) => "end".to_string(),
+                Err(e) => err_name(&e).to_string(),
+            };
+            format!("ok {}", nx)
+        }
+        Err(e) => format!("{} -", err_name(&e)),
+    }
+}
+
+fn bytes_at<R: Read>(rd: &mut TokenReader<R>, k: usize, n: usize) -> String {
+    for _ in 0..k {
+        match rd.next() {
+            Ok(Some(_)) => {}
+            Ok(None) => return "nok end".to_string(),
+            Err(e) => return format!("nok {}", err_name(&e)),
+        }
+    }
+    let first = match rd.read_bytes(n) {
+        Ok(b) => format!("b:{}", hex(b)),
+        Err(e) => return format!("{} -", err_name(&e)),
+    };
+    let nx = match rd.next() {
+        Ok(Some(t)) => text_lex_tok(&t),
+        Ok(None) => "end".to_string(),
+        Err(e) => err_name(&e).to_string(),
+    };
+    format!("{} {}", first, nx)
+}
+
+/// a buffer of `cap` bytes that a previous reader has filled with bytes significant to the lexer
+fn recycled_buffer(cap: usize) -> Box<[u8]> {
+    let junk: Vec<u8> = b"\"\\{}#= a\n\"x\\\"".iter().copied().cycle().take(cap * 3 + 7).collect();
+    let mut rd = TokenReader::builder().buffer_len(cap).build(&junk[..]);
+    for _ in 0..(cap + 4) {
+        match rd.next() {
+            Ok(Some(_)) => {}
+            _ => break,
+        }
+    }
+    let (buf, _) = rd.into_parts();
+    buf
+}
+
+/// the schedule-driven Read, remembering how many bytes had been delivered at each failing call
+pub struct Logged<'a> { pub inner: SchedReader<'a>, pub fault_pos: Vec<usize> }
+impl<'a> Read for Logged<'a> {
+    fn read(&mut self, buf: &mut [u8]) -> std::io::Result<usize> {
+        let r = self.inner.read(buf);
+        if r.is_err() { self.fault_pos.push(self.inner.pos); }
+        r
+    }
+}
+
+pub struct Cap { pub n: usize, pub recycled: bool }
+fn parse_cap(s: &str) -> Option<Cap> {
+    if let Some(p) = s.strip_suffix('r') { Some(Cap { n: p.parse().ok()?, recycled: true }) } else { Some(Cap { n: s.parse().ok()?, recycled: false }) }
+}
+
+/// run `f` on a reader over `data`; cap 0 = from_slice
+fn with_reader<T>(cap: &Cap, steps: &[Step], data: &[u8],
+                  f_slice: impl FnOnce(&mut TokenReader<&[u8]>) -> T,
+                  f_stream: impl FnOnce(&mut TokenReader<Logged>) -> T) -> (T, usize, usize, usize, usize, Vec<usize>) {
+    if cap.n == 0 {
+        let mut rd = TokenReader::from_slice(data);
+        let t = f_slice(&mut rd);
+        (t, rd.position(), data.len(), 0, 0, vec![])
+    } else {
+        let src = Logged { inner: SchedReader::new(data, steps.to_vec()), fault_pos: vec![] };
+        let b = if cap.recycled { TokenReader::builder().buffer(recycled_buffer(cap.n)) } else { TokenReader::builder().buffer_len(cap.n) };
+        let mut rd = b.build(src);
+        let t = f_stream(&mut rd);
+        let pos = rd.position();
+        let (_, src) = rd.into_parts();
+        (t, pos, src.inner.delivered(), src.inner.faults, src.inner.calls, src.fault_pos)
+    }
+}
+
+pub fn run_lex(cap: &Cap, steps: &[Step], data: &[u8], retry: bool, via_read: bool) -> Run {
+    let limit = data.len() * 2 + 32;
+    let ((toks, out), pos, delivered, faults, calls, fault_pos) =
+        with_reader(cap, steps, data, |r| lex_all(r, limit, retry, via_read), |r| lex_all(r, limit, retry, via_read));
+    Run { toks, out, pos, delivered, faults, calls, fault_pos }
+}
+
+fn run_skip(cap: &Cap, steps: &[Step], data: &[u8], kind: SkipKind, k: usize) -> (String, usize, usize, usize) {
+    let limit = data.len() * 2 + 32;
+    let (s, pos, delivered, faults, _, _) = with_reader(cap, steps, data, |r| skip_at(r, kind, k, limit), |r| skip_at(r, kind, k, limit));
+    (s, pos, delivered, faults)
+}
+
+fn run_bytes(cap: &Cap, steps: &[Step], data: &[u8], k: usize, n: usize) -> (String, usize, usize, usize) {
+    let (s, pos, delivered, faults, _, _) = with_reader(cap, steps, data, |r| bytes_at(r, k, n), |r| bytes_at(r, k, n));
+    (s, pos, delivered, faults)
+}
+
+// ------------------------------------------------------------------------------------------
+// independent reference: a byte-at-a-time tokenizer over the whole input, and what has to fit
+
+#[derive(Clone, Debug, PartialEq)]
+pub struct RefLex {
+    pub toks: Vec<String>,
+    pub out: &'static str,
+    /// smallest buffer capacity with which every token, comment and look-ahead fits
+    pub need: usize,
+    /// byte offset just after each token (the offset a reader is at, modulo one skipped blank)
+    pub ends: Vec<usize>,
+    /// the input ends inside an unterminated quoted scalar
+    pub in_quote: bool,
+}
+
+fn blank(b: u8) -> bool { matches!(b, b' ' | b'\t' | b'\n' | b'\r' | b';') }
+fn ref_boundary(b: u8) -> bool {
+    matches!(b, b'\t' | b'\n' | 0x0b | 0x0c | b'\r' | b' ' | b'!' | b'#' | b'<' | b'=' | b'>' | b'[' | b']' | b'}' | b'{')
+}
+
+pub fn ref_lex(d: &[u8]) -> RefLex {
+    let n = d.len();
+    let mut toks = vec![];
+    let mut ends = vec![];
+    let mut need = 1usize;
+    let mut i = 0usize;
+    let mut out = "end";
+    let mut in_quote = false;
+    if n >= 1 && d[0] == 0xef {
+        need = need.max((n + 1).min(3));
+        if n >= 3 && d[1] == 0xbb && d[2] == 0xbf { i = 3; }
+    }
+    let us = |b: &[u8]| format!("U:{}", hex(b));
+    while i < n {
+        let c = d[i];
+        if blank(c) { i += 1; continue; }
+        match c {
+            b'#' => {
+                let mut j = i;
+                while j < n && d[j] != b'\n' { j += 1; }
+                need = need.max(j - i + 1);
+                i = j;
+            }
+            b'{' => { toks.push("Open".into()); i += 1; ends.push(i); }
+            b'}' => { toks.push("Close".into()); i += 1; ends.push(i); }
+            b'"' => {
+                let s = i + 1;
+                let mut j = s;
+                let mut closed = false;
+                while j < n {
+                    if d[j] == b'\\' { j += 2; } else if d[j] == b'"' { closed = true; break; } else { j += 1; }
+                }
+                if closed {
+                    need = need.max(j - s + 1);
+                    toks.push(format!("Q:{}", hex(&d[s..j])));
+                    i = j + 1; ends.push(i);
+                } else {
+                    need = need.max(n - s + 1);
+                    out = "err:eof";
+                    in_quote = true;
+                    break;
+                }
+            }
+            b'@' => {
+                if i + 1 == n { need = need.max(2); out = "err:eof"; break; }
+                if d[i + 1] == b'[' {
+                    let mut j = i + 2;
+                    while j < n && d[j] != b']' { j += 1; }
+                    if j < n { need = need.max(j + 1 - i); toks.push(us(&d[i..j + 1])); i = j + 1; ends.push(i); }
+                    else { need = need.max(n - i + 1); out = "err:eof"; break; }
+                } else {
+                    let mut j = i + 1;
+                    while j < n && !ref_boundary(d[j]) { j += 1; }
+                    need = need.max(j - i + 1);
+                    toks.push(us(&d[i..j])); i = j; ends.push(i);
+                }
+            }
+            b'=' | b'<' | b'>' | b'!' | b'?' => {
+                need = need.max(2);
+                if i + 1 == n { out = "err:eof"; break; }
+                let eq = d[i + 1] == b'=';
+                let name = match (c, eq) {
+                    (b'=', false) => "eq", (b'=', true) => "exact",
+                    (b'<', false) => "lt", (b'<', true) => "le",
+                    (b'>', false) => "gt", (b'>', true) => "ge",
+                    (b'!', _) => "ne", _ => "exists",
+                };
+                toks.push(format!("Op:{}", name));
+                i += if eq { 2 } else { 1 };
+                ends.push(i);
+            }
+            _ => {
+                let mut j = i + 1;
+                while j < n && !ref_boundary(d[j]) { j += 1; }
+                need = need.max(j - i + 1);
+                toks.push(us(&d[i..j])); i = j; ends.push(i);
+            }
+        }
+    }
+    RefLex { toks, out, need, ends, in_quote }
+}
+
+/// where skip_container must land according to token counting: index (into the reference token
+/// list) of the token following the close that matches the k-th Open; None if unbalanced.
+fn ref_skip_target(r: &RefLex, k: usize) -> Option<usize> {
+    let mut seen = 0;
+    let mut i = 0;
+    while i < r.toks.len() {
+        if r.toks[i] == "Open" { seen += 1; if seen == k { break; } }
+        i += 1;
+    }
+    if i >= r.toks.len() { return None; }
+    let mut depth = 1i64;
+    let mut j = i + 1;
+    while j < r.toks.len() {
+        if r.toks[j] == "Open" { depth += 1; }
+        if r.toks[j] == "Close" { depth -= 1; if depth == 0 { return Some(j + 1); } }
+        j += 1;
+    }
     None
 }
 
+/// is the byte-level view of skip_container guaranteed to coincide with token counting?
+/// (true for rendered documents: no brace / quote / '#' inside an unquoted scalar or `@[..]`)
+fn skip_comparable(d: &[u8]) -> bool {
+    let r = ref_lex(d);
+    // an unterminated `@[` / quote / dangling operator at the end is outside the comparison
+    if r.out != "end" { return false; }
+    // unquoted tokens must not contain bytes the skipper interprets
+    for t in r.toks.iter() {
+        if let Some(h) = t.strip_prefix("U:") {
+            if let Some(b) = unhex(h) {
+                if b.iter().any(|c| matches!(c, b'{' | b'}' | b'"' | b'#')) { return false; }
+            }
+        }
+    }
+    true
+}
+
+fn is_prefix(a: &[String], b: &[String]) -> bool { a.len() <= b.len() && a.iter().zip(b.iter()).all(|(x, y)| x == y) }
+fn strip_faults(steps: &[Step]) -> Vec<Step> {
+    let mut v = vec![];
+    for s in steps {
+        match s { Step::Fail => {}, Step::FailForever => break, x => v.push(x.clone()) }
+    }
+    v
+}
+fn has_faults(steps: &[Step]) -> bool { steps.iter().any(|s| matches!(s, Step::Fail | Step::FailForever)) }
+
+// ------------------------------------------------------------------------------------------
+
+pub fn exec(w: &[&str], obs: &mut Obs) -> Option<String> {
+    let case = || w.join(" ");
+    match w {
+        ["lws", v] => { let x: u64 = v.parse().ok()?;
+            let r = hooks::leading_whitespace(x);
+            let expect = x.to_le_bytes().iter().take_while(|b| **b == b'\t' || **b == b'\n').count() as u32;
+            if r != expect { obs.violation("lws-spec", &case(), &format!("impl {} reference {}", r, expect)); }
+            obs.count(&format!("lws:{}", r));
+            Some(format!("{}", r)) }
+        ["cchunk", v, b] => { let x: u64 = v.parse().ok()?; let b: u8 = b.parse().ok()?;
+            let r = hooks::count_chunk(x, b);
+            let expect = x.to_le_bytes().iter().filter(|c| **c == b).count() as u64;
+            if r != expect { obs.violation("cchunk-spec", &case(), &format!("impl {} reference {}", r, expect)); }
+            obs.count(&format!("cchunk:{}", r));
+            Some(format!("{}", r)) }
+        ["czb", v] => { let x: u64 = v.parse().ok()?;
+            let r = hooks::contains_zero_byte(x);
+            let expect = x.to_le_bytes().iter().any(|c| *c == 0);
+            if r != expect { obs.violation("czb-spec", &case(), &format!("impl {} reference {}", r, expect)); }
+            Some(format!("{}", r as u8)) }
+        ["tlex", h] => {
+            let d = unhex(h)?;
+            let r = run_lex(&Cap { n: 0, recycled: false }, &[], &d, false, false);
+            let reference = ref_lex(&d);
+            if r.toks != reference.toks || r.out != reference.out {
+                obs.violation("slice-vs-reference", &case(), &format!("impl {} {} reference {} {}", join(&r.toks), r.out, join(&reference.toks), reference.out));
+            }
+            if r.out == "end" && r.pos != d.len() { obs.violation("slice-final-position", &case(), &format!("pos {} len {}", r.pos, d.len())); }
+            obs.count(&format!("tlex:{}", r.out));
+            for t in &r.toks { obs.count(&format!("tok:{}", t.split(':').next().unwrap_or("?"))); }
+            Some(format!("{} {} {}", join(&r.toks), r.out, r.pos))
+        }
+        [op @ ("tstream" | "tretry" | "tread"), c, s, h] => {
+            let cap = parse_cap(c)?; let steps = sched::parse(s)?; let d = unhex(h)?;
+            let retry = *op == "tretry"; let via_read = *op == "tread";
+            let r = run_lex(&cap, &steps, &d, retry, via_read);
+            stream_oracle(op, &cap, &steps, &d, &r, &case(), obs);
+            obs.count(&format!("{}:{}", op, r.out));
+            if cap.recycled { obs.count("recycled"); }
+            Some(format!("{} {} {} {}", join(&r.toks), r.out, r.pos, r.delivered))
+        }
+        [op @ ("tskip" | "tskipu"), c, s, h, k] => {
+            let cap = parse_cap(c)?; let steps = sched::parse(s)?; let d = unhex(h)?; let k: usize = k.parse().ok()?;
+            let kind = if *op == "tskip" { SkipKind::Container } else { SkipKind::Unquoted };
+            let (res, pos, delivered, faults) = run_skip(&cap, &steps, &d, kind, k);
+            skip_oracle(kind, &cap, &steps, &d, k, &res, pos, delivered, faults, &case(), obs);
+            obs.count(&format!("{}:{}", op, res.split(' ').next().unwrap_or("?")));
+            Some(format!("{} {} {}", res, pos, delivered))
+        }
+        ["tbytes", c, s, h, k, n] => {
+            let cap = parse_cap(c)?; let steps = sched::parse(s)?; let d = unhex(h)?; let k: usize = k.parse().ok()?; let n: usize = n.parse().ok()?;
+            let (res, pos, delivered, faults) = run_bytes(&cap, &steps, &d, k, n);
+            bytes_oracle(&cap, &steps, &d, k, n, &res, pos, delivered, faults, &case(), obs);
+            obs.count(&format!("tbytes:{}", res.split(|c| c == ' ' || c == ':').next().unwrap_or("?")));
+            Some(format!("{} {} {}", res, pos, delivered))
+        }
+        _ => None,
+    }
+}
+
+/// L3: the property's own predicate on the real code.
+fn stream_oracle(op: &str, cap: &Cap, steps: &[Step], d: &[u8], r: &Run, case: &str, obs: &mut Obs) {
+    if r.out == "hang" { obs.violation("no-progress", case, "token limit exceeded"); return; }
+    if r.pos > r.delivered { obs.violation("position-beyond-delivered", case, &format!("pos {} delivered {}", r.pos, r.delivered)); }
+    if cap.n == 0 { return; }
+    let via_read = op == "tread";
+    let slice = run_lex(&Cap { n: 0, recycled: false }, &[], d, false, via_read);
+    let reference = ref_lex(d);
+    let fits = cap.n >= reference.need;
+    let faulty = has_faults(steps);
+    if cap.recycled {
+        let fresh = run_lex(&Cap { n: cap.n, recycled: false }, steps, d, op == "tretry", via_read);
+        if fresh != *r { obs.violation("recycled-vs-fresh", case, &format!("fresh {} {} {}", join(&fresh.toks), fresh.out, fresh.pos)); }
+    }
+    if !faulty {
+        if fits {
+            if r.toks != slice.toks || r.out != slice.out {
+                obs.violation("stream-vs-slice", case, &format!("stream {} {} slice {} {}", join(&r.toks), r.out, join(&slice.toks), slice.out));
+            } else if r.out == "end" && r.pos != d.len() {
+                obs.violation("stream-final-position", case, &format!("pos {} len {}", r.pos, d.len()));
+            } else if r.pos != slice.pos {
+                obs.violation("stream-vs-slice-position", case, &format!("stream {} slice {}", r.pos, slice.pos));
+            }
+            obs.count("oracle:fits");
+        } else {
+            // something does not fit: an error, never a clean end, never different tokens
+            let ok = r.out.starts_with("err:") && is_prefix(&r.toks, &slice.toks);
+            if !ok {
+                obs.violation("overflow-not-error", case, &format!("need {} stream {} {} slice {} {}", reference.need, join(&r.toks), r.out, join(&slice.toks), slice.out));
+            }
+            obs.count(&format!("oracle:too-small:{}", r.out));
+        }
+        if r.out == "err:io" { obs.violation("io-error-without-fault", case, ""); }
+        if r.out == "err:full" && fits { obs.violation("full-although-fits", case, &format!("need {}", reference.need)); }
+    } else {
+        // C20: the fault-free run with the same capacity is the reference
+        let clean = run_lex(&Cap { n: cap.n, recycled: false }, &strip_faults(steps), d, false, via_read);
+        let got: Vec<String> = r.toks.iter().filter(|t| *t != "!io").cloned().collect();
+        let nio = r.toks.len() - got.len();
+        if r.faults == 0 {
+            if got != clean.toks || r.out != clean.out { obs.violation("fault-unreached-differs", case, &format!("clean {} {}", join(&clean.toks), clean.out)); }
+        } else if op == "tretry" {
+            // every successful call must return what the fault-free run returns
+            let fin_ok = if r.out == "err:io" { is_prefix(&got, &clean.toks) } else { got == clean.toks && r.out == clean.out };
+            if !fin_ok {
+                // known shape: the failing refill was in ParseState::Quote (the bytes delivered before the
+                // failing read end inside an unterminated quoted scalar): the opening quote is lost
+                let in_quoted = r.fault_pos.iter().any(|p| ref_lex(&d[..*p]).in_quote);
+                let kind = if in_quoted { "fault-retry-in-quoted" } else { "fault-retry-differs" };
+                obs.violation(kind, case, &format!("faulty {} {} clean {} {}", join(&r.toks), r.out, join(&clean.toks), clean.out));
+            }
+            if nio == 0 && r.out != "err:io" { obs.violation("fault-swallowed", case, &format!("{} faults, no I/O error reported", r.faults)); }
+        } else {
+            if r.out != "err:io" {
+                obs.violation("fault-swallowed", case, &format!("{} faults but outcome {}", r.faults, r.out));
+            }
+            if !is_prefix(&got, &clean.toks) {
+                obs.violation("fault-differs", case, &format!("faulty {} clean {}", join(&r.toks), join(&clean.toks)));
+            }
+        }
+        if steps.iter().any(|s| matches!(s, Step::FailForever)) && r.faults > 0 && r.out != "err:io" {
+            obs.violation("persistent-fault-no-error", case, &r.out);
+        }
+        obs.count(if r.faults == 0 { "oracle:fault-unreached" } else { "oracle:fault-hit" });
+    }
+}
+
+fn skip_oracle(kind: SkipKind, cap: &Cap, steps: &[Step], d: &[u8], k: usize, res: &str, pos: usize, delivered: usize, faults: usize, case: &str, obs: &mut Obs) {
+    if pos > delivered { obs.violation("position-beyond-delivered", case, &format!("pos {} delivered {}", pos, delivered)); }
+    if res.starts_with("hang") { obs.violation("no-progress", case, ""); return; }
+    let reference = ref_lex(d);
+    let faulty = has_faults(steps);
+    let words: Vec<&str> = res.split(' ').collect();
+    // 1. token counting (only where the byte-level and token-level views must coincide)
+    if !faulty && kind == SkipKind::Container && skip_comparable(d) && (cap.n == 0 || cap.n >= reference.need.max(3)) {
+        match ref_skip_target(&reference, k) {
+            Some(j) => {
+                let expect = if j < reference.toks.len() { reference.toks[j].clone() } else { reference.out.replace("end", "end") };
+                if words[0] != "ok" || words[1] != expect {
+                    obs.violation("skip-vs-counting", case, &format!("impl `{}` expected next token {}", res, expect));
+                }
+                obs.count("oracle:skip-counted");
+            }
+            None => {
+                // no matching close (or fewer than k opens): must not report success
+                if words[0] == "ok" { obs.violation("skip-unbalanced-ok", case, res); }
+            }
+        }
+    }
+    if !faulty && kind == SkipKind::Unquoted && skip_comparable(d) && (cap.n == 0 || cap.n >= reference.need.max(3)) {
+        // after the k-th Unquoted: if the next token is Open, the whole container is skipped; else nothing is
+        let mut seen = 0; let mut idx = None;
+        for (i, t) in reference.toks.iter().enumerate() { if t.starts_with("U:") { seen += 1; if seen == k { idx = Some(i); break; } } }
+        if let Some(i) = idx {
+            let expect: Option<String> = if reference.toks.get(i + 1).map(|t| t == "Open").unwrap_or(false) {
+                let mut depth = 0i64; let mut j = i + 1; let mut tgt = None;
+                while j < reference.toks.len() {
+                    if reference.toks[j] == "Open" { depth += 1; }
+                    if reference.toks[j] == "Close" { depth -= 1; if depth == 0 { tgt = Some(j + 1); break; } }
+                    j += 1;
+                }
+                tgt.map(|j| if j < reference.toks.len() { reference.toks[j].clone() } else { reference.out.to_string() })
+            } else {
+                Some(if i + 1 < reference.toks.len() { reference.toks[i + 1].clone() } else { reference.out.to_string() })
+            };
+            // `skip_unquoted_value` only looks through blanks: a comment between the scalar and `{` stops it
+            let comment_between = reference.toks.get(i + 1).map(|t| t == "Open").unwrap_or(false)
+                && d[reference.ends[i]..reference.ends[i + 1]].contains(&b'#');
+            let kind = if comment_between { "skipu-comment-before-brace" } else { "skipu-vs-counting" };
+            match expect {
+                Some(e) => if words[0] != "ok" || words[1] != e { obs.violation(kind, case, &format!("impl `{}` expected {}", res, e)); },
+                None => if words[0] == "ok" { obs.violation(if comment_between { kind } else { "skip-unbalanced-ok" }, case, res); },
+            }
+            obs.count("oracle:skipu-counted");
+        }
+    }
+    // 2. stream == slice for every input when things fit
+    if cap.n != 0 {
+        let (sres, spos, _, _) = run_skip(&Cap { n: 0, recycled: false }, &[], d, kind, k);
+        if !faulty {
+            // (after a byte-level skip over a text whose unquoted tokens contain braces/quotes/'#' the following
+            //  token need not be one of the reference tokens, so `need` only bounds it when everything fits)
+            if cap.n >= reference.need.max(3) && (cap.n > d.len() || skip_comparable(d)) {
+                if sres != res { obs.violation("skip-stream-vs-slice", case, &format!("stream `{}` slice `{}`", res, sres)); }
+                else if words[0] == "ok" && words[1] == "end" && pos != spos { obs.violation("skip-final-position", case, &format!("stream {} slice {}", pos, spos)); }
+            } else if res != sres && !res.contains("err:") {
+                obs.violation("skip-overflow-not-error", case, &format!("stream `{}` slice `{}`", res, sres));
+            }
+        } else {
+            let (cres, _, _, _) = run_skip(&Cap { n: cap.n, recycled: false }, &strip_faults(steps), d, kind, k);
+            if faults == 0 { if cres != res { obs.violation("fault-unreached-differs", case, &format!("clean `{}`", cres)); } }
+            else if !res.contains("err:io") { obs.violation("fault-swallowed", case, &format!("faulty `{}` clean `{}`", res, cres)); }
+            else {
+                // what completed before the error must agree with the clean run
+                let cw: Vec<&str> = cres.split(' ').collect();
+                if words[0] == "ok" && cw[0] != "ok" { obs.violation("fault-differs", case, &format!("faulty `{}` clean `{}`", res, cres)); }
+            }
+        }
+    }
+}
+
+fn bytes_oracle(cap: &Cap, steps: &[Step], d: &[u8], k: usize, n: usize, res: &str, pos: usize, delivered: usize, faults: usize, case: &str, obs: &mut Obs) {
+    if pos > delivered { obs.violation("position-beyond-delivered", case, &format!("pos {} delivered {}", pos, delivered)); }
+    let reference = ref_lex(d);
+    let faulty = has_faults(steps);
+    let fits = cap.n == 0 || cap.n >= reference.need.max(n);
+    // offsets read_bytes may start from: just after token k (or the stream start), or one further when the fast
+    // path swallowed the single space that followed an unquoted scalar (position quirk of `next_opt`, not a token change)
+    let mut offsets: Vec<usize> = vec![];
+    if k == 0 { offsets.push(0); }
+    else if k <= reference.toks.len() {
+        let o = reference.ends[k - 1];
+        offsets.push(o);
+        if o < d.len() && d[o] == b' ' && reference.toks[k - 1].starts_with("U:") { offsets.push(o + 1); }
+    }
+    let first = res.split(' ').next().unwrap_or("");
+    if !faulty && (fits || first.starts_with("b:")) {
+        if let Some(h) = first.strip_prefix("b:") {
+            let got = unhex(h).unwrap_or_default();
+            if !offsets.iter().any(|a| a + n <= d.len() && d[*a..a + n] == got[..]) {
+                obs.violation("bytes-not-from-position", case, res);
+            }
+            obs.count("oracle:bytes-checked");
+        } else if first == "err:eof" {
+            if !offsets.iter().any(|a| a + n > d.len()) { obs.violation("bytes-spurious-eof", case, res); }
+        } else if first == "nok" {
+            if k <= reference.toks.len() { obs.violation("bytes-lost-tokens", case, res); }
+        } else {
+            obs.violation("bytes-unexpected", case, res);
+        }
+    }
+    if cap.n == 0 { return; }
+    let (sres, _, _, _) = run_bytes(&Cap { n: 0, recycled: false }, &[], d, k, n);
+    if !faulty {
+        // too small a buffer: an error, or the same bytes as the slice reader (modulo the one-space offset checked above)
+        if !fits && !res.contains("err:") && !(first.starts_with("b:") && sres.starts_with("b:")) && res != sres {
+            obs.violation("bytes-overflow-not-error", case, &format!("stream `{}` slice `{}`", res, sres));
+        }
+    } else {
+        let (cres, _, _, _) = run_bytes(&Cap { n: cap.n, recycled: false }, &strip_faults(steps), d, k, n);
+        if faults == 0 { if cres != res { obs.violation("fault-unreached-differs", case, &format!("clean `{}`", cres)); } }
+        else if !res.contains("err:io") { obs.violation("fault-swallowed", case, &format!("faulty `{}` clean `{}`", res, cres)); }
+        else if res.starts_with("b:") && res.split(' ').next() != cres.split(' ').next() { obs.violation("fault-differs", case, &format!("faulty `{}` clean `{}`", res, cres)); }
+    }
+}
+
+// ------------------------------------------------------------------------------------------
+// generators
+
+const DENSE: &[u8] = b"{}\"\\#=<>!?@[]\xef\xbb\xbf\x08\x0b a1\n\t";
+
+fn dense_text(rng: &mut Rng, maxlen: usize) -> Vec<u8> {
+    let n = rng.below(maxlen + 1);
+    (0..n).map(|_| *rng.pick(DENSE)).collect()
+}
+
+/// strings built from lexically meaningful fragments (much denser in complete tokens than bytes)
+fn fragment_text(rng: &mut Rng, maxlen: usize) -> Vec<u8> {
+    const FRAGS: &[&[u8]] = &[
+        b"a", b"ab", b"abc=", b"=", b"==", b"<", b"<=", b">", b">=", b"!=", b"!", b"?=", b"?", b"{", b"}", b" ", b"  ", b"\n", b"\t", b"\r\n", b";",
+        b"\"", b"\"\"", b"\"a\"", b"\"a b\"", b"\\\"", b"\\\\", b"\\", b"\"a\\\"b\"", b"\"\\\\\"", b"#", b"#c\n", b"# {\"}\n", b"@", b"@a", b"@[", b"@[x]", b"]", b"[",
+        b"\xef\xbb\xbf", b"\xef", b"\xefb", b"\x08", b"\x0b", b"\x0c", b"1", b"-1", b"yes", b"rgb", b"abcdefgh", b"abcdefghi", b"\n\t\t\t", b"\n\t\t",
+    ];
+    let mut v = vec![];
+    let target = rng.below(maxlen + 1);
+    while v.len() < target {
+        v.extend_from_slice(*rng.pick(FRAGS));
+    }
+    v.truncate(maxlen);
+    v
+}
+
+fn doc_text(rng: &mut Rng, semis: bool) -> Vec<u8> {
+    let mut cfg = DocCfg::text_full();
+    match rng.below(4) { 0 => { cfg.max_fields = 2; cfg.max_depth = 2; } 1 => { cfg.max_fields = 3; cfg.max_depth = 3; } _ => {} }
+    let doc = docgen::gen_doc(rng, &cfg);
+    let lex = docgen::lexemes(&doc);
+    let lay = if semis { LayoutCfg::full() } else { LayoutCfg::reader_safe() };
+    if rng.chance(1, 10) { docgen::render_canonical(&lex) } else { docgen::render_layout(rng, &lay, &lex) }
+}
+
+fn one_input(rng: &mut Rng, maxlen: usize) -> Vec<u8> {
+    match rng.below(10) {
+        0 | 1 => dense_text(rng, maxlen),
+        2 => docgen::random_text(rng, maxlen),
+        3 | 4 | 5 => fragment_text(rng, maxlen),
+        6 => { let d = doc_text(rng, false); let m = docgen::mutate(rng, &d, DENSE); m.into_iter().take(maxlen).collect() }
+        7 => { let d = doc_text(rng, true); d.into_iter().take(maxlen).collect() }
+        _ => { let d = doc_text(rng, false); d.into_iter().take(maxlen).collect() }
+    }
+}
+
+fn cap_choices(rng: &mut Rng, need: usize, len: usize) -> Vec<usize> {
+    let mut v = vec![need, need + 1, need + rng.range(2, 9), len + 1 + rng.below(8), len.max(1) * 2 + 3];
+    if rng.chance(1, 2) { v.push(rng.range(need, need.max(len) + 4)); }
+    if rng.chance(1, 3) { v.push(*rng.pick(&[8usize, 9, 10, 16, 17, 24, 32])); }
+    v.retain(|c| *c >= 1);
+    v.sort(); v.dedup();
+    v
+}
+fn small_caps(rng: &mut Rng, need: usize) -> Vec<usize> {
+    let mut v = vec![];
+    if need >= 2 { v.push(need - 1); v.push(rng.range(1, need - 1)); }
+    if need >= 4 { v.push(need / 2); v.push(1); v.push(2); }
+    v.retain(|c| *c >= 1 && *c < need);
+    v.sort(); v.dedup();
+    v
+}
+
+fn show_cap(rng: &mut Rng, c: usize) -> String { if rng.chance(1, 6) { format!("{}r", c) } else { c.to_string() } }
+
+fn long_schedules(rng: &mut Rng, len: usize, all_one_cuts: bool) -> Vec<Vec<Step>> {
+    let mut v: Vec<Vec<Step>> = vec![vec![], vec![Step::Repeat(1)]];
+    v.push(vec![Step::Repeat(rng.range(2, 9))]);
+    v.push(vec![Step::Repeat(rng.range(2, 17))]);
+    if len >= 2 {
+        if all_one_cuts {
+            for c in 1..len { v.push(vec![Step::Give(c)]); }
+        } else {
+            for _ in 0..3 { v.push(vec![Step::Give(rng.range(1, len - 1))]); }
+        }
+        for _ in 0..4 {
+            let a = rng.range(1, len - 1);
+            let b = rng.range(1, len - a.min(len - 1)).max(1);
+            v.push(vec![Step::Give(a), Step::Give(b)]);
+        }
+    }
+    for _ in 0..3 { v.push(sched::random(rng, len)); }
+    v
+}
+
+/// C07: (input, schedule, capacity) triples.
+pub fn gen_c07(g: &mut Gen) {
+    let mut rng = g.rng.clone();
+    // fixed witnesses of past defects and hand-picked corner cases
+    for (cap, s, text) in [
+        ("16", "-", &b"\x08abc=1234567890 "[..]),
+        ("16", "R1", b"a=b \xef\xbb\xbfc=1"),
+        ("16", "R7", b"a=b \xef\xbb\xbfc=1"),
+        ("16", "-", b"name=\xefb"),
+        ("8", "-", b"abcdefghijklmnopqrst=1"),
+        ("8", "-", b"#comment longer than buffer\na=b"),
+        ("16", "R1", b"\"a\\\"b\""),
+        ("16", "R1", b"\"\\\\\" x"),
+        ("16", "5", b"\"a\\\"\\\"b\""),
+        ("16", "R1", b"\xef\xbb\xbf#hello"),
+        ("16", "R1", b"\xef\xbb"),
+        ("2", "R1", b"\xef "),
+        ("16", "3", b"a ?= b != c"),
+        ("16", "-", b"=")
+    ] {
+        g.emit(format!("tstream {} {} {}", cap, s, hex(text)));
+        g.emit(format!("tlex {}", hex(text)));
+    }
+    // 1. every composition schedule for short inputs
+    let n_short = g.budget(260, 6000);
+    for i in 0..n_short {
+        let maxlen = match i % 8 { 0 => 12, 1 | 2 => 10, 3 | 4 => 8, _ => 7 };
+        let d = one_input(&mut rng, maxlen);
+        let r = ref_lex(&d);
+        g.emit(format!("tlex {}", hex(&d)));
+        let mut caps = vec![r.need, r.need + 1, d.len() + 2];
+        if r.need > 1 { caps.push(r.need - 1); }
+        if rng.chance(1, 3) { caps.push(rng.range(1, d.len() + 3)); }
+        caps.sort(); caps.dedup();
+        let comps = sched::compositions(d.len());
+        for c in &caps {
+            for s in &comps {
+                let cs = show_cap(&mut rng, *c);
+                g.emit(format!("tstream {} {} {}", cs, sched::show(s), hex(&d)));
+            }
+        }
+        g.count("short:all-compositions");
+    }
+    // 2. longer inputs: 1-/2-cut, all-1-byte, periodic, random schedules; capacities from exact fit upward and too small
+    let n_long = g.budget(900, 20000);
+    for i in 0..n_long {
+        let maxlen = match i % 6 { 0 => 24, 1 => 40, 2 => 64, 3 => 100, 4 => 200, _ => 48 };
+        let d = one_input(&mut rng, maxlen);
+        if d.is_empty() { continue; }
+        let r = ref_lex(&d);
+        g.emit(format!("tlex {}", hex(&d)));
+        let scheds = long_schedules(&mut rng, d.len(), d.len() <= 40);
+        let caps = cap_choices(&mut rng, r.need, d.len());
+        for s in &scheds {
+            let c = *rng.pick(&caps);
+            let cs = show_cap(&mut rng, c);
+            g.emit(format!("tstream {} {} {}", cs, sched::show(s), hex(&d)));
+        }
+        for c in &caps {
+            let s = rng.pick(&scheds).clone();
+            g.emit(format!("tstream {} {} {}", c, sched::show(&s), hex(&d)));
+        }
+        for c in small_caps(&mut rng, r.need) {
+            let s = rng.pick(&scheds).clone();
+            g.emit(format!("tstream {} {} {}", c, sched::show(&s), hex(&d)));
+        }
+        if rng.chance(1, 6) {
+            let s = rng.pick(&scheds).clone();
+            g.emit(format!("tread {} {} {}", rng.pick(&caps), sched::show(&s), hex(&d)));
+        }
+        g.count("long:schedules-x-caps");
+    }
+    // 3. fast-path alignment sweep: a scalar / quoted string of every length 1..40 after 0..9 blanks with 0..10 trailing bytes
+    let n_sweep = g.budget(1, 4);
+    for _ in 0..n_sweep {
+        for len in 1..=40usize {
+            for pad in [0usize, 1, 3, 7, 8, 9] {
+                let trail = rng.below(11);
+                let quoted = rng.chance(1, 2);
+                let mut d: Vec<u8> = (0..pad).map(|_| *rng.pick(b"\t\n \t\n\r")).collect();
+                if quoted {
+                    d.push(b'"');
+                    let mut body: Vec<u8> = (0..len).map(|_| *rng.pick(b"abc {}#=")).collect();
+                    if rng.chance(1, 2) && len >= 2 { let p = rng.below(len - 1); body[p] = b'\\'; body[p + 1] = *rng.pick(b"\"\\n"); }
+                    d.extend(body);
+                    d.push(b'"');
+                } else {
+                    d.extend((0..len).map(|_| *rng.pick(b"abz09-._")));
+                }
+                let t: Vec<u8> = (0..trail).map(|_| *rng.pick(b" \n=}{a\"")).collect();
+                d.extend(t);
+                let r = ref_lex(&d);
+                g.emit(format!("tlex {}", hex(&d)));
+                let s = sched::random(&mut rng, d.len());
+                let c = r.need + rng.below(12);
+                g.emit(format!("tstream {} {} {}", c, sched::show(&s), hex(&d)));
+                g.emit(format!("tstream {} {} {}", d.len() + 9, "-", hex(&d)));
+            }
+        }
+        g.count("sweep:alignment");
+    }
+    // 4. the SWAR hooks
+    let n_hook = g.budget(3000, 60000);
+    for _ in 0..n_hook {
+        let bytes: Vec<u8> = (0..8).map(|_| match rng.below(10) { 0..=3 => b'\t', 4 | 5 => b'\n', 6 => *rng.pick(&[8u8, 0x0b, 0x0c, 0x0d, b' ', 0x89, 0x8a, 0]), 7 => *rng.pick(b"{}\"#\\"), _ => rng.below(256) as u8 }).collect();
+        let x = u64::from_le_bytes([bytes[0], bytes[1], bytes[2], bytes[3], bytes[4], bytes[5], bytes[6], bytes[7]]);
+        match rng.below(3) {
+            0 => g.emit(format!("lws {}", x)),
+            1 => { let b = if rng.chance(3, 4) { *rng.pick(&bytes) } else { rng.below(256) as u8 }; g.emit(format!("cchunk {} {}", x, b)); }
+            _ => { let m = if rng.chance(1, 2) { x } else { x ^ hooks::repeat_byte(*rng.pick(&bytes)) }; g.emit(format!("czb {}", m)); }
+        }
+    }
+    for b in 0..=255u8 { g.emit(format!("lws {}", hooks::repeat_byte(b))); g.emit(format!("cchunk {} {}", hooks::repeat_byte(b), b)); g.emit(format!("lws {}", (b as u64) << 8 | 9)); }
+    g.rng = rng;
+}
+
+/// C09 (text): skip_container / skip_unquoted_value under schedules and capacities.
+pub fn gen_skip(g: &mut Gen) {
+    let mut rng = g.rng.clone();
+    for text in [&b"foo={{bar={}}} qux=1"[..], b"color = rgb { 1 2 3 }  foo=bar", b"a={ \"}\" #}\n b=\"\\\"}\" } c", b"a={\"x\\\\\"} b", b"x={ {} {{}} } y"] {
+        for k in 1..=3 { g.emit(format!("tskip 0 - {} {}", hex(text), k)); g.emit(format!("tskip 16 R1 {} {}", hex(text), k)); g.emit(format!("tskipu 16 R3 {} {}", hex(text), k)); }
+    }
+    let n = g.budget(700, 12000);
+    for i in 0..n {
+        let d = match i % 5 {
+            0 => { let d = doc_text(&mut rng, true); d }
+            1 => { let d = doc_text(&mut rng, false); docgen::mutate(&mut rng, &d, DENSE) }
+            2 => fragment_text(&mut rng, 60),
+            _ => doc_text(&mut rng, false),
+        };
+        if d.is_empty() || d.len() > 400 { continue; }
+        let r = ref_lex(&d);
+        let opens = r.toks.iter().filter(|t| *t == "Open").count();
+        let unq = r.toks.iter().filter(|t| t.starts_with("U:")).count();
+        let scheds = long_schedules(&mut rng, d.len(), false);
+        let caps = cap_choices(&mut rng, r.need.max(3), d.len());
+        for k in 1..=opens.min(6) + 1 {
+            g.emit(format!("tskip 0 - {} {}", hex(&d), k));
+            for _ in 0..3 {
+                let s = rng.pick(&scheds).clone();
+                let c = *rng.pick(&caps);
+                g.emit(format!("tskip {} {} {} {}", show_cap(&mut rng, c), sched::show(&s), hex(&d), k));
+            }
+            if rng.chance(1, 4) {
+                let s = rng.pick(&scheds).clone();
+                g.emit(format!("tskip {} {} {} {}", rng.range(1, r.need.max(3)), sched::show(&s), hex(&d), k));
+            }
+        }
+        for k in 1..=unq.min(5) {
+            if rng.chance(1, 2) { continue; }
+            g.emit(format!("tskipu 0 - {} {}", hex(&d), k));
+            let s = rng.pick(&scheds).clone();
+            let c = *rng.pick(&caps);
+            g.emit(format!("tskipu {} {} {} {}", c, sched::show(&s), hex(&d), k));
+        }
+        g.count("skip:docs");
+    }
+    // every composition for short container texts
+    let n_short = g.budget(60, 1200);
+    for _ in 0..n_short {
+        let mut d = b"{".to_vec();
+        d.extend(fragment_text(&mut rng, 8));
+        d.extend_from_slice(*rng.pick(&[&b"} a"[..], b"}a", b"}", b"\"}\"}x"]));
+        d.truncate(11);
+        let r = ref_lex(&d);
+        for s in sched::compositions(d.len()) {
+            g.emit(format!("tskip {} {} {} 1", r.need.max(3) + rng.below(3), sched::show(&s), hex(&d)));
+        }
+        g.count("skip:all-compositions");
+    }
+    // the \n\t\t\t word test of skip_unquoted_value
+    for pre in [&b"a"[..], b"rgb", b"a=b"] {
+        for ws in [&b"\n\t\t\t"[..], b"\n\t\t", b"\n\t\t\t\t", b"\t\t\t\n", b" \n\t\t\t", b"\n\t\t\t{", b""] {
+            for post in [&b"{ 1 2 } c"[..], b"c", b"", b"{", b"{}"] {
+                let mut d = pre.to_vec(); d.extend_from_slice(ws); d.extend_from_slice(post);
+                for k in 1..=2 {
+                    g.emit(format!("tskipu 0 - {} {}", hex(&d), k));
+                    g.emit(format!("tskipu 12 R1 {} {}", hex(&d), k));
+                    g.emit(format!("tskipu 12 R5 {} {}", hex(&d), k));
+                }
+            }
+        }
+    }
+    // read_bytes
+    let n_b = g.budget(300, 5000);
+    for _ in 0..n_b {
+        let d = one_input(&mut rng, 40);
+        let r = ref_lex(&d);
+        let k = rng.below(r.toks.len() + 1).min(6);
+        let nb = rng.below(d.len() + 3);
+        g.emit(format!("tbytes 0 - {} {} {}", hex(&d), k, nb));
+        let s = sched::random(&mut rng, d.len());
+        let c = r.need.max(nb) + rng.below(4);
+        g.emit(format!("tbytes {} {} {} {} {}", c.max(1), sched::show(&s), hex(&d), k, nb));
+        if nb > 1 { g.emit(format!("tbytes {} {} {} {} {}", rng.range(1, nb), sched::show(&s), hex(&d), k, nb)); }
+    }
+    g.rng = rng;
+}
+
+/// C20 (text reader): a fault at every read-call index.
+pub fn gen_fault(g: &mut Gen) {
+    let mut rng = g.rng.clone();
+    let n = g.budget(250, 5000);
+    for i in 0..n {
+        let d = match i % 4 { 0 => fragment_text(&mut rng, 30), 1 => dense_text(&mut rng, 24), _ => { let d = doc_text(&mut rng, false); d.into_iter().take(120).collect() } };
+        if d.is_empty() { continue; }
+        let r = ref_lex(&d);
+        let base = match rng.below(4) { 0 => vec![Step::Repeat(1)], 1 => vec![], _ => sched::random(&mut rng, d.len()) };
+        let cap = r.need + rng.below(6);
+        // number of read calls of the fault-free run
+        let clean = run_lex(&Cap { n: cap, recycled: false }, &base, &d, false, false);
+        let calls = clean.calls.min(40);
+        // expand the schedule to explicit steps so that a fault can be put at call index j
+        let explicit = explicit_steps(&base, &d, cap);
+        for j in 0..=calls.min(explicit.len()) {
+            for fault in [Step::Fail, Step::FailForever] {
+                let mut s: Vec<Step> = explicit[..j].to_vec();
+                s.push(fault.clone());
+                s.extend_from_slice(&explicit[j..]);
+                if let Some(Step::Repeat(_)) = base.last() { s.push(base.last().unwrap().clone()); }
+                let op = if fault == Step::Fail && rng.chance(1, 2) { "tretry" } else { "tstream" };
+                g.emit(format!("{} {} {} {}", op, cap, sched::show(&s), hex(&d)));
+                if rng.chance(1, 6) {
+                    let opens = r.toks.iter().filter(|t| *t == "Open").count();
+                    if opens > 0 { g.emit(format!("tskip {} {} {} {}", cap.max(3), sched::show(&s), hex(&d), rng.range(1, opens))); }
+                    g.emit(format!("tbytes {} {} {} {} {}", cap, sched::show(&s), hex(&d), rng.below(3), rng.range(1, cap)));
+                }
+            }
+        }
+        g.count("fault:every-call-index");
+    }
+    g.rng = rng;
+}
+
+/// the sizes actually delivered by the fault-free run under `base`
+fn explicit_steps(base: &[Step], d: &[u8], cap: usize) -> Vec<Step> {
+    // replay the Read calls by running the reader with a recording source
+    struct Rec<'a> { inner: SchedReader<'a>, sizes: Vec<usize> }
+    impl<'a> Read for Rec<'a> {
+        fn read(&mut self, buf: &mut [u8]) -> std::io::Result<usize> { let n = self.inner.read(buf)?; self.sizes.push(n); Ok(n) }
+    }
+    let src = Rec { inner: SchedReader::new(d, base.to_vec()), sizes: vec![] };
+    let mut rd = TokenReader::builder().buffer_len(cap).build(src);
+    let mut n = 0;
+    loop { n += 1; if n > d.len() * 2 + 32 { break; } match rd.next() { Ok(Some(_)) => {}, _ => break } }
+    let (_, src) = rd.into_parts();
+    src.sizes.into_iter().filter(|n| *n >= 1).map(Step::Give).collect()
+}
+
+/// C07's own cases.  `gen_skip` (C09) and `gen_fault` (C20) are assembled into those checks by
+/// c09.rs / c20.rs; set VERIF_C07_ALL=1 to run all three through `./check C07` while developing.
+pub fn gen(g: &mut Gen) {
+    gen_c07(g);
+    if std::env::var("VERIF_C07_ALL").map(|v| v == "1").unwrap_or(false) {
+        gen_skip(g);
+        gen_fault(g);
+    }
+}
+
 pub fn tables() -> String {
-    String::new()
+    let mut s = String::new();
+    s.push_str(&crate::tables::emit_bool_table("textBoundary", "`data::is_boundary` (measured through the verif hook)", |b| hooks::is_boundary(b)));
+    s.push('\n');
+    // a byte is blank for the streaming reader iff `[b, 'a']` lexes to exactly the scalar `a`
+    s.push_str(&crate::tables::emit_bool_table("textReaderBlank", "bytes the text TokenReader skips between tokens (measured: `[b] ++ \"a\"` lexes to exactly `a`)", |b| {
+        let d = [b, b'a'];
+        let r = run_lex(&Cap { n: 0, recycled: false }, &[], &d, false, false);
+        r.toks == vec!["U:61".to_string()] && r.out == "end"
+    }));
+    s.push('\n');
+    s
 }
